@@ -553,6 +553,24 @@ impl RaAdvService {
     }
 }
 
+/// Verification hook: the pure announcement builder for a configured interface, found by name.
+#[cfg(feature = "verif")]
+pub fn verif_build_ra(
+    config: &crate::config::Config,
+    ifname: &str,
+    ll: Option<[u8; 6]>,
+    mtu: Option<u32>,
+    self6: std::net::Ipv6Addr,
+    lifetime: std::time::Duration,
+) -> Option<icmppkt::RtrAdvertisement> {
+    config
+        .ra
+        .interfaces
+        .iter()
+        .find(|intf| intf.name == ifname)
+        .map(|intf| RaAdvService::build_announcement_pure(config, intf, ll, mtu, self6, lifetime))
+}
+
 #[cfg(test)]
 use crate::config::ConfigValue;
 
